@@ -464,4 +464,6 @@ def run(ctx):
 
 SELFTESTS = [
     (rule_tables, ["c16_bad.cc"], ["c16_good.cc"], "connect_internal"),
+    (rule_lowest_free, ["c16_first_bad.cc"], ["c16_first_good.cc"], "n-start"),
+    (rule_drive_number_range, ["c16_first_bad.cc"], ["c16_first_good.cc"], "narrow(ld)"),
 ]
